@@ -53,6 +53,12 @@ def shapes(thorough):
     out.append(('advice:expiring-earlier', {'C_NOOA': 600, 'SCD_NOOA': 600, 'ADV_NOOA': 200}))
     out.append(('advice:not-yet-valid', {'C_NOOA': 600, 'SCD_NOOA': 600, 'ADV_NB': 100, 'ADV_NOOA': 600}))
     out.append(('advice:long-expired', {'C_NOOA': 600, 'SCD_NOOA': 600, 'ADV_NB': -3 * DAY, 'ADV_NOOA': -2 * DAY}))
+    # OneTimeUse next to the time bounds: the expiry handed to the application is still the Conditions NotOnOrAfter
+    out.append(('one-time-use', {'C_NB': -60, 'C_NOOA': 300, 'SCD_NOOA': 400, '_onetimeuse': True}))
+    # a plain assertion with the bounds of the shape next to a perfectly valid encrypted one
+    out.append(('mixed:plain+encrypted-valid', {'C_NB': -60, 'C_NOOA': 300, 'SCD_NOOA': 400, 'SESS': 500, '_mixed': True}))
+    # the allowance is lowered on the live client's configuration after construction (judged with allowance 0)
+    out.append(('allowance-lowered-afterwards', {'C_NB': -60, 'C_NOOA': 300, 'SCD_NOOA': 400, '_lowered': True}))
     out.append(('inv-conditions', {'C_NB': 10, 'C_NOOA': 0, 'SCD_NOOA': 400}))
     out.append(('inv-scd', {'SCD_NB': 10, 'SCD_NOOA': 0, 'C_NOOA': 400}))
     return out
@@ -83,6 +89,12 @@ def build_doc(shape, style, soap=False):
         a['more_authn'] = [shape['SESS2']] + ([shape['SESS3']] if 'SESS3' in shape else [])
     if shape.get('_noaud'):
         a['audiences'] = ()
+    if shape.get('_onetimeuse'):
+        a['cond_extra'] = '<saml:OneTimeUse/>'
+    if shape.get('_mixed') and not soap:
+        x = forge.response(T0, [forge.assertion(T0, aid='A1', **a), forge.assertion(T0, aid='A2', subject='second')], style=style)
+        x = forge.encrypt_assertions(x, 'spXenc1', which=['A2'])
+        return forge.sign(x.replace('<saml:Issuer>%s</saml:Issuer>' % world.IDP_A, '<saml:Issuer>%s</saml:Issuer>%s' % (world.IDP_A, forge.sig_template('R1')), 1), 'R1', 'idpA')
     if soap:
         a['confirmations'] = [c.replace(world.ACS_POST, world.ACS_SOAP) for c in conf]
         return forge.build(T0, resp=dict(style=style, dest=world.ACS_SOAP), assertions=[a])
@@ -159,7 +171,7 @@ def judge(shape, style, slack, dt):
         rej = True
     if not (abs(dt) + s + 1 < DAY):
         spare = False
-    profile = ('ADV_NOOA' not in shape and 'ADV_NB' not in shape and style in Z_LIKE and 'SCD_NOOA' in shape and 'SCD_NB' not in shape and 'SCD2_NB' not in shape and not shape.get('_noaud')
+    profile = (not shape.get('_mixed') and 'ADV_NOOA' not in shape and 'ADV_NB' not in shape and style in Z_LIKE and 'SCD_NOOA' in shape and 'SCD_NB' not in shape and 'SCD2_NB' not in shape and not shape.get('_noaud')
                and 'SESS2' not in shape)
     acc = profile and spare and not rej
     exp = None
@@ -196,6 +208,10 @@ def evaluate_in_zone(cell):
         DOCS[k] = build_doc(shape, style, soap)
     xml = DOCS[k]
     sp = sp_for(slack, soap)
+    if shape.get('_lowered'):
+        # a private client built with a generous allowance that is then lowered to `slack` on its live configuration
+        sp = world.make_sp(TMP[0], top={'accepted_time_diff': 3600})
+        sp.config.accepted_time_diff = slack or 0
     out = []
     for dt in dts:
         env.Clock.set(env.BASE + dt)
@@ -260,7 +276,7 @@ def run(ctx):
         'level': 'exploration',
         'coverage': {
             'evaluations': n, 'distinct_nontrivial': len(nontriv), 'exhaustive': True,
-            'rule': 'complete grid: %d document shapes (every subset of the five optional bounds; Conditions without any child element; two bearer confirmations with different windows in both orders; session-earlier-than-conditions; two and three AuthnStatements with the earliest session bound on a later one; an Advice assertion with its own window (its attributes must not reach the application outside it); wide bounds isolating IssueInstant; NotBefore>NotOnOrAfter inversions) x timestamp spellings (Z, fractions, no designator, numeric zones incl. half-hour and negative offsets) x allowance values x process time zone (UTC, UTC+5, UTC-5; thorough also +5:30 and a DST zone) x delivery (signed over HTTP-POST; unsigned over SOAP, where the handler runs with asynchop off) x placements of now (-2..+2 s around every edge shifted by the allowance, around +-1 day of IssueInstant, far values); non-trivial = cells where the oracle demands a verdict (reject-required or accept-required, 1 s dead zone around each edge)' % len(SHAPES),
+            'rule': 'complete grid: %d document shapes (every subset of the five optional bounds; Conditions without any child element; two bearer confirmations with different windows in both orders; session-earlier-than-conditions; two and three AuthnStatements with the earliest session bound on a later one; OneTimeUse next to the bounds; a plain assertion next to a valid encrypted one; the allowance lowered on the live configuration after construction; an Advice assertion with its own window (its attributes must not reach the application outside it); wide bounds isolating IssueInstant; NotBefore>NotOnOrAfter inversions) x timestamp spellings (Z, fractions, no designator, numeric zones incl. half-hour and negative offsets) x allowance values x process time zone (UTC, UTC+5, UTC-5; thorough also +5:30 and a DST zone) x delivery (signed over HTTP-POST; unsigned over SOAP, where the handler runs with asynchop off) x placements of now (-2..+2 s around every edge shifted by the allowance, around +-1 day of IssueInstant, far values); non-trivial = cells where the oracle demands a verdict (reject-required or accept-required, 1 s dead zone around each edge)' % len(SHAPES),
             'samples': [{'cell': list(cs[i0][:4]) + [cs[i0][5]], 'instants': cs[i0][4][:6], 'outcomes': [list(o) for o in res[i0][:3]]}],
             'accepted': n_acc, 'accept_required_cells': n_must_acc, 'reject_required_cells': n_must_rej,
             'distinct_outcomes': len(hist), 'outcome_histogram': hist,
